@@ -27,8 +27,8 @@ CONSTANTS Vals,        \* value ids a field may hold (subset of DOMAIN VT)
           Semantics,   \* "memory" | "dynamic"
           Insts,       \* comparer instances (processes / transactions that opened the store)
           MaxHist,     \* bound on the recorded history of one instance
-          Emit         \* "beh": print every comparison step as a behaviour to replay on the real code;
-                       \* "wit": print a SameAnswer witness per state; "none"
+          Emit         \* "beh": print every comparison step of the first instance (others fresh) as a behaviour to
+                       \* replay on the real code; "wit": print a SameAnswer witness per state; "both"; "none"
 
 VARIABLES mem,    \* mem[i][f]  : kind of the comparer instance i remembered for field f, or "unset"
           flds,   \* flds[i]    : field list instance i compares (NoFlds until the first key in default mode)
@@ -205,8 +205,12 @@ Step(i, x, y, a) ==
   /\ flds' = [flds EXCEPT ![i] = a.fl]
   /\ last' = [a |-> "Cmp", i |-> i, x |-> x, y |-> y, r |-> a.r, uniform |-> Uniform(a, x, y)]
 
+\* Behaviours of ONE comparer object: printed for the first instance while every other instance is still fresh.
+OthersFresh(i) == \A j \in Insts \ {i} : mem[j] = FreshMem /\ flds[j] = FreshFlds
+FirstInst == CHOOSE j \in Insts : \A k \in Insts : j <= k
 EmitStep(i, x, y, a) ==
-  (Emit = "beh") => PrintT(<<"BEH", ToJson([h |-> hist[i], x |-> x, y |-> y, r |-> a.r, uniform |-> Uniform(a, x, y)])>>)
+  (Emit \in {"beh", "both"} /\ i = FirstInst /\ OthersFresh(i)) =>
+     PrintT(<<"BEH", ToJson([h |-> hist[i], x |-> x, y |-> y, r |-> a.r, uniform |-> Uniform(a, x, y)])>>)
 
 \* instance i answers Compare(x, y) (the sign is last.r); every operand has the kind the instance remembers
 CmpUniform(i, x, y) ==
@@ -293,7 +297,7 @@ InstancePreorder ==
 (* Witness of a SameAnswer violation between instances 1 and 2 in this state, for replay on the real code. *)
 Disagree == {p \in Keys \X Keys : LET as == AnsAll(p[1], p[2]) IN \E i \in Insts, j \in Insts : as[i].r # as[j].r}
 EmitWitness ==
-  (Emit = "wit" /\ Disagree # {}) =>
+  (Emit \in {"wit", "both"} /\ Disagree # {}) =>
      LET p == CHOOSE p \in Disagree : TRUE
      IN PrintT(<<"WIT", ToJson([hs |-> [i \in Insts |-> hist[i]], x |-> p[1], y |-> p[2], n |-> Cardinality(Disagree)])>>)
 =============================================================================
